@@ -67,6 +67,14 @@ def make_interp(model: PyModel, specs: Specs, g: ParserGrammar) -> Interp:
         return f
 
     def call_any(I, fv, args, kwargs, st, node):
+        import re as _re
+
+        m = _re.match(r"ext:.*\.(\w+Context)\.(\w+)$", fv.cls)
+        if m and args and isinstance(args[0], Opaque) and args[0].cls.startswith("q:"):
+            # unbound accessor of a generated context class applied to a context:  Ctx.accessor(ctx) == ctx.accessor()
+            r = method(I, args[0], m.group(2), list(args[1:]), kwargs, st, node)
+            if r is not None:
+                return r
         if fv.cls.startswith("ext:"):
             kw = tuple(sorted((k, I.B.freeze_term(I, x, st)) for k, x in kwargs.items()))
             return [(Term(fv.cls[4:].split(".")[-1], tuple(I.B.freeze_term(I, a, st) for a in args) + ((("kw",) + kw,) if kw else ())), st)]
